@@ -423,6 +423,8 @@ def gen_schedules(rng, tier, n=None):
             faults["ro"] = True
         if rng.random() < 0.3:
             faults["copy"] = True
+        if rng.random() < 0.35:
+            faults["conc"] = rng.choice([0.3, 0.6, 1.0])
         scheds.append({"policy": rng.choice(POLICIES), "seed": rng.randrange(2**31), "faults": faults,
                        "fuse": rng.random() < 0.5})
     return scheds
@@ -850,7 +852,7 @@ def _run_case(spec, cnt=None):
                     with dask.config.set(scheduler="synchronous"):
                         got = compute_all(lazy)
                 else:
-                    sim = SimScheduler(seed=sc["seed"], policy=sc["policy"], faults=sc.get("faults"))
+                    sim = SimScheduler(seed=sc["seed"], policy=sc["policy"], faults=_with_watch(sc.get("faults")))
                     cfg = {"scheduler": sim}
                     if not sc.get("fuse", True):
                         cfg["optimization.fuse.active"] = False
@@ -930,6 +932,18 @@ def _run_case(spec, cnt=None):
         return None, info
 
 
+def _with_watch(faults):
+    """source files whose lines are pre-emption points for F7 (xgcm itself and the generated user ufuncs)"""
+    import os
+
+    import xgcm
+
+    f = dict(faults or {})
+    if f.get("conc"):
+        f["watch"] = [os.path.dirname(os.path.abspath(xgcm.__file__)) + os.sep, os.path.abspath(__file__)]
+    return f
+
+
 def _short(sn, d):
     if "dims" in sn:
         return repr(sn.get(d))[:160]
@@ -946,7 +960,7 @@ def _fault_class(sc):
     if sc["policy"] == "real-sync":
         return "any-schedule"
     f = sc.get("faults") or {}
-    act = [k for k in ("dup", "evict", "ro", "copy") if f.get(k)]
+    act = [k for k in ("dup", "evict", "ro", "copy", "conc") if f.get(k)]
     return "faults:" + ("+".join(act) if act else "none")
 
 
